@@ -164,7 +164,12 @@ def run(ctx):
     # backend thread's loop (real _poll / _exit), at every atomic operation and with every load value the C++11 model admits:
     # when stop() has returned (request + join) every statement the stopping thread logged before is at the sink
     hs = wmmlib.build_sys()
-    sj = sys_jobs(hs, ctx.tier)
+    try:
+        sj = sys_jobs(hs, ctx.tier)
+    except vf.HarnessError as e:
+        # the loop in BackendWorker::run changed shape: the replica does not apply, this part is skipped and reported as a cap
+        sj = []
+        ctx.capped("Backend::stop() exploration skipped: " + str(e)[:200])
     wmmlib.run_sys(ctx, sj)
     ctx.rule += ("; Backend::stop() at atomic-operation granularity (Engine A whole-system variant): real log calls and the real stop() against the "
                  "backend thread's loop and final drain, all interleavings and C++11-admissible load values")
